@@ -143,8 +143,8 @@ theorem parseSource_plain (c : Byte) (r : Bytes) (hp : Plain (c :: r)) :
   rw [hfuel, parseProgramLoop]
   have hcur : ({ toks := [t, e] } : PS).curIs .EOF = false := by simp [PS.curIs, PS.cur, hty]
   have hstmt : parseStatement 23 ({ toks := [t, e] } : PS) = (.html t, { toks := [t, e] }) := by
-    rw [show (23 : Nat) = 22 + 1 from rfl, parseStatement]
-    simp [PS.cur, hty]
+    show statementBody (pcalleesAt 22) ({ toks := [t, e] } : PS) = _
+    simp [statementBody, PS.cur, hty]
   simp only [hcur, Bool.false_eq_true, if_false, hstmt]
   have hill : ({ toks := [t, e] } : PS).curIs .ILLEGAL = false := by simp [PS.curIs, PS.cur, hty]
   simp only [hill, Bool.false_eq_true, if_false, Stmt.isBad, List.nil_append]
